@@ -178,6 +178,14 @@ def gen_plan(r, index, tier):
             w, cfg = common.gen_stream_workload(r, max_values=3, small=True, force_codec='ber', allow_f2=False,
                                                 variants=False)
     desc = w['desc']
+    if desc['k'] in ('SEQ', 'SET') and desc.get('fields') and r.random() < 0.15 and \
+            not any(f['n'] == 'zrec' for f in desc['fields']):
+        # an ABSENT optional record all of whose own fields are optional: a placeholder of that type is born as
+        # a value, so anything that instantiates the slot behind the caller's back changes the value's encoding
+        desc['fields'].append({'n': 'zrec', 'opt': 'O',
+                               'd': {'k': 'SEQ', 'tags': [['I', 'P', 29]],
+                                     'fields': [{'n': 'x', 'd': {'k': 'INTEGER', 'tags': []}, 'opt': 'O'},
+                                                {'n': 'y', 'd': {'k': 'BOOLEAN', 'tags': []}, 'opt': 'D', 'dv': True}]}})
     nv = len(w['values'])
     codecs = _codecs_for(desc)
     neighbours = _gen_neighbours(r, w)
